@@ -80,10 +80,24 @@ def _build(spec):
             g = smcdrv.project_group(spec["id"], [r1, r2])
         elif b == "resume":
             g = _build_resume(spec["id"], p)
+        elif b == "rerun":
+            # several sample() calls (no resume) on one sampler object: each is a fresh run
+            ids = smcdrv.IdTable()
+            runs = []
+            prev = None
+            for cc in p["cfgs"]:
+                c2 = dict(p["cfg"]); c2.update(cc)
+                prev = smcdrv.run_smc(c2, ids=ids, role="single", reuse=prev)
+                runs.append(prev)
+            g = smcdrv.project_group(spec["id"], runs)
         elif b == "calls":
             import gendrv
             r = gendrv.run_calls(p["cfg"])
             g = gendrv.project_calls_group(spec["id"], [r])
+        elif b == "pool":
+            import gendrv
+            runs = gendrv.run_pool_sequence(p["cfg"])
+            g = gendrv.project_calls_group(spec["id"], runs)
         elif b == "calls_repeat":
             import gendrv
             import numpy as np
@@ -499,6 +513,33 @@ def corpus_calls(tier, seed, rnd, n=None, repeat=False):
         specs.append(_mk(i, "calls_repeat" if repeat else "calls", {"cfg": c}))
     for sp in specs:
         sp["id"] = "c" + sp["id"]
+    # sampling inside and after the multiprocessing-pool context
+    if not repeat:
+        for i in range(12 if tier == "quick" else 200):
+            c = dict(ns=rnd.choice(["numpy", "numpy", "torch", "jax"]), N=rnd.choice([4, 8]), dims=2, width=rnd.choice([0.3, 1.0]),
+                     seed=seed * 7 + i, recipe=rnd.choice([False, True]), bad_frac=rnd.choice([0.0, 0.3]),
+                     par_prior=(i % 2 == 0), close_pool=(i % 3 == 0), second_context=(i % 4 == 0), dtype="float64")
+            specs.append({"id": f"p{i:04d}", "builder": "pool", "params": {"cfg": c}})
+    return specs
+
+
+def corpus_rerun(tier, seed, rnd):
+    """the same sampler object used for several consecutive sample() calls with different options"""
+    specs = []
+    n = 30 if tier == "quick" else 500
+    opts = [dict(target=(0.3, 0.8)), dict(target=0.5), dict(adaptive=False, n_steps=3), dict(max_n_steps=2),
+            dict(n_final=12), dict(target=0.8, min_step=0.2), dict(every=1), dict(adaptive=False, n_steps=2, every=2, n_final=5)]
+    for i in range(n):
+        # (affine whitening of a collapsed tiny population has zero spread and yields NaN coordinates: that
+        #  is a property of the whitening, not of the schedule; it is kept out of this corpus)
+        base = dict(N=rnd.choice([8, 12]), width=rnd.choice([0.3, 0.5, 1.0]), seed=seed * 17 + i,
+                    sampler=rnd.choice(["minipcn_smc", "minipcn_smc", "emcee_smc"]), rng_route="init",
+                    precond=rnd.choice(["none", "default"]))
+        k = rnd.choice([2, 2, 3])
+        cfgs = [dict(rnd.choice(opts)) for _ in range(k)]
+        if base["sampler"] == "emcee_smc":
+            cfgs = [{kk: vv for kk, vv in cc.items() if kk not in ("min_step", "max_n_steps")} for cc in cfgs]
+        specs.append({"id": f"u{i:05d}", "builder": "rerun", "params": {"cfg": base, "cfgs": cfgs}})
     return specs
 
 
@@ -1084,11 +1125,12 @@ def rule_default(g, r, fin):
 
 
 CHECKS = {
-    "C06": dict(corpus=corpus_schedule, e1=[e1_tempering], extra=apalache_inductive),
-    "C07": dict(corpus=corpus_schedule, e1=[e1_tempering]),
+    "C06": dict(corpus=lambda t, s, r: corpus_schedule(t, s, r) + corpus_rerun(t, s, r), e1=[e1_tempering], extra=apalache_inductive),
+    "C07": dict(corpus=lambda t, s, r: corpus_schedule(t, s, r) + corpus_rerun(t, s, r), e1=[e1_tempering]),
     "C08": dict(corpus=lambda t, s, r: corpus_general(t, s, r, 200 if t == "quick" else 3000)
                 + [dict(x, id="v" + x["id"]) for x in corpus_variants(t, s, r)]
-                + [dict(x, id="r" + x["id"]) for x in corpus_resume(t, s, r)][: (120 if t == "quick" else 3000)],
+                + [dict(x, id="r" + x["id"]) for x in corpus_resume(t, s, r)][: (120 if t == "quick" else 3000)]
+                + corpus_rerun(t, s, r),
                 e1=[e1_smcrun]),
     "C09": dict(corpus=lambda t, s, r: corpus_general(t, s, r, 150 if t == "quick" else 3000), e1=[],
                 extra=lambda v, t, s: __import__("e3_resample").replay(v, t, s)),
@@ -1099,7 +1141,9 @@ CHECKS = {
     "C17": dict(corpus=lambda t, s, r: corpus_general(t, s, r) + corpus_calls(t, s, r), e1=[e1_smcrun],
                 extra=lambda v, t, s: __import__("e3_initialdraw").replay(v, t, s, "C17")),
     "C20": dict(corpus=corpus_c20, e1=[], extra=e3_routing),
-    "C18": dict(corpus=lambda t, s, r: corpus_general(t, s, r, 200 if t == "quick" else 3000) + [dict(x, id="r" + x["id"]) for x in corpus_resume(t, s, r)][: (150 if t == "quick" else 3000)], e1=[e1_smcrun]),
+    "C18": dict(corpus=lambda t, s, r: corpus_general(t, s, r, 200 if t == "quick" else 3000)
+                + [dict(x, id="r" + x["id"]) for x in corpus_resume(t, s, r)][: (150 if t == "quick" else 3000)]
+                + corpus_rerun(t, s, r), e1=[e1_smcrun]),
 }
 
 
